@@ -18,7 +18,7 @@ LevelConf(i, slots, clock, m) == Direct(Name("level", i, 0, "x"), <<Level(slots)
                                         {Trace, Debug, Info, Error, Fatal, NoLevel}, m)
 LevelConfs(clock, m) == {LevelConf(1, <<0, 0, 0, 0, 0>>, clock, m), LevelConf(2, <<2, 2, 0, 0, 3>>, clock, m),
                          LevelConf(3, <<0, 3, 2, 0, 4>>, clock, m), LevelConf(4, <<4, 0, 3, 2, 2>>, clock, m)}
-LoggerConf(i, nodes, ll, gl, clock, m) == Logger(Name("logger", i, ll * 10 + gl, "x"), nodes, ll, gl, clock, {Debug, Info, Warn, Error, NoLevel}, m)
+LoggerConf(i, nodes, ll, gl, clock, m) == Logger(Name("logger", i, ll * 10 + gl, "x"), nodes, ll, gl, clock, {Debug, Info, Warn, Error, NoLevel, Disabled}, m)
 LoggerConfs(clock, m) ==
        {LoggerConf(1, <<Basic(2)>>, ll, gl, clock, m) : ll \in {Debug, Warn}, gl \in {Trace, Info, Error}}
   \cup {LoggerConf(2, <<Burst(1, 2, 0)>>, ll, gl, clock, m) : ll \in {Debug, Warn}, gl \in {Trace, Info}}
